@@ -51,6 +51,11 @@ def _calculateMinAndMaxTime(entries: Sequence[Interval], minT=None, maxT=None):
     except ValueError:
         raise errors.TimelessTextgridTierException()
 
+    # Bounds given in the wrong order (only possible for a tier without
+    # entries) are put in order, as PointTier does
+    if resolvedMinT > resolvedMaxT:
+        resolvedMinT, resolvedMaxT = resolvedMaxT, resolvedMinT
+
     return (resolvedMinT, resolvedMaxT)
 
 
